@@ -481,7 +481,7 @@ def run(ctx, pid):
         n = replay_graph(ctx, pid, K_SMALL3, rep, label="graph")
         n += replay_graph(ctx, pid, K_CAP, rep, label="graph_capacity")
         n += replay_simulated(ctx, pid, K_BIG, rep, num=1500)
-        n += replay_graph(ctx, pid, K_RACE, rep, max_walks=5000, label="graph_3req", prefer=_mark_after_replacement_window)
+        n += replay_graph(ctx, pid, K_RACE, rep, max_walks=3000, label="graph_3req", prefer=_mark_after_replacement_window)
         if pid == "C12":
             if tlc_exhaustive(ctx, pid, dict(K_MID3, Ks=True), "mid3ks", rep, coverage=False) is None:
                 return rep.finish()
